@@ -201,6 +201,10 @@ class Proof:
     def find_item(self, id: ItemID) -> ProofItem:
         """Find item at the given id."""
         try:
+            if any(i < 0 for i in id.id):
+                # Negative numbers are not positions (Python would count
+                # them from the end of the list).
+                raise IndexError
             item = self.items[id.id[0]]
             for i in id.id[1:]:
                 item = item.subproof.items[i]
